@@ -40,15 +40,22 @@ const blk = 16
 var ext = [3]int32{2 * blk, 2 * blk, 2 * blk}
 
 type world struct {
-	c      *drive.Child
-	dir    string
-	root   string
-	nodes  []string
-	locked map[string]bool
-	nbr    int
-	rebuilt int // ops whose effect lives in state rebuilt at start-up
-	panics []string
+	c          *drive.Child
+	dir        string
+	root       string
+	nodes      []string
+	locked     map[string]bool
+	nbr        int
+	rebuilt    int // ops whose effect lives in state rebuilt at start-up
+	panics     []string
+	mergeNodes map[string]bool // nodes created by a merge
+	njJump     bool            // since the last restart a new version was made from a merge node (master head left its lineage)
 }
+
+// The neuronjson in-memory database of the master head follows the head: it is only right while the head moves to
+// descendants.  A new version made from a merge node moves the head to a node with another lineage (genuine defect,
+// listed as known finding; the history steers around it when it is listed).
+const sigNJJump = "C03/neuronjson/memory-stale-after-head-moved-to-merge-lineage"
 
 func (w *world) do(method, url string, body []byte) (drive.Resp, error) {
 	r, err := w.c.Do(method, url, body)
@@ -201,6 +208,13 @@ func (w *world) apply(o wop) error {
 	case "log":
 		_, err = w.post("node/"+u+"/log", []byte(fmt.Sprintf(`{"log":["entry %d"]}`, o.A)))
 	case "newversion", "branch":
+		if o.Kind == "newversion" && w.mergeNodes[u] {
+			if stats.IsKnown(sigNJJump) {
+				stats.Excluded(sigNJJump)
+				return nil
+			}
+			w.njJump = true
+		}
 		if open {
 			r, e := w.post("node/"+u+"/commit", []byte(`{"note":"auto"}`))
 			if e != nil {
@@ -244,6 +258,10 @@ func (w *world) apply(o wop) error {
 			var c struct{ Child string }
 			if json.Unmarshal(r.Body, &c) == nil && c.Child != "" {
 				w.nodes = append(w.nodes, c.Child)
+				if w.mergeNodes == nil {
+					w.mergeNodes = map[string]bool{}
+				}
+				w.mergeNodes[c.Child] = true
 			}
 		}
 	case "dagdiamond":
@@ -262,6 +280,10 @@ func (w *world) apply(o wop) error {
 			var c struct{ Child string }
 			if json.Unmarshal(r.Body, &c) == nil && c.Child != "" {
 				w.nodes = append(w.nodes, c.Child)
+				if w.mergeNodes == nil {
+					w.mergeNodes = map[string]bool{}
+				}
+				w.mergeNodes[c.Child] = true
 			}
 		}
 	case "lmingest":
@@ -565,6 +587,17 @@ func checkC03(c c03Case) (restarts int, rebuilt int, err error) {
 				return restarts, w.rebuilt, stats.Violf(sig, "after %s at op %d: %s", o.Kind, i, strings.Join(orderDiffs, " || "))
 			}
 		}
+		if len(diffs) > 0 && w.njJump {
+			onlyNJ := true
+			for _, d := range diffs {
+				if !strings.Contains(strings.SplitN(d, ": ", 2)[0], "/nj/") {
+					onlyNJ = false
+				}
+			}
+			if onlyNJ {
+				return restarts, w.rebuilt, stats.Violf(sigNJJump, "after %s at op %d: a new version was made from a merge node, the master head moved to it, and %d neuronjson observables differ: %s", o.Kind, i, len(diffs), strings.Join(diffs[:1], ""))
+			}
+		}
 		if len(diffs) > 0 {
 			first := strings.SplitN(diffs[0], ": ", 2)[0]
 			n := len(diffs)
@@ -574,6 +607,7 @@ func checkC03(c c03Case) (restarts int, rebuilt int, err error) {
 			return restarts, w.rebuilt, stats.Violf("C03/"+o.Kind+"/"+sigOf(first), "after %s at op %d (%d ops since last restart) %d observables differ: %s", o.Kind, i, sinceRestart, n, strings.Join(diffs, " || "))
 		}
 		sinceRestart = 0
+		w.njJump = false
 	}
 	if len(w.panics) > 0 {
 		return restarts, w.rebuilt, stats.Violf("C03/panic-response", "%s", w.panics[0])
